@@ -174,7 +174,7 @@ inline ld scale_ref(int fn, ld ref)
 
 // named predicates for the open known findings (first match wins); "unclassified" otherwise
 template <class T>
-inline const char* classify(int fn, T x, T y)
+inline const char* classify(int fn, T x, T y, double err = 0)
 {
     (void)y;
     const bool dbl = sizeof(T) == 8;
@@ -188,6 +188,10 @@ inline const char* classify(int fn, T x, T y)
         return "tgamma_reflection_underflow";
     if (fn == FN_TGAMMA && dbl && x < (T)-171.6)
         return "tgamma_reflection_underflow";
+    // F30: the double Stirling/reflection path is accurate to ~1100 ulp on (-171.6, -108]; the frozen table says 1024
+    // (its design-time maximum, 637, was under-sampled).  Errors beyond 2048 ulp are NOT part of the finding.
+    if (fn == FN_TGAMMA && dbl && x <= (T)-108 && err <= 2048.0)
+        return "tgamma_stirling_accuracy";
     // F29: double sin/cos/tan for |x| < 20*pi within 2^-26 of a multiple of pi/2: the medium-range Cody-Waite reduction
     // keeps ~100 bits of pi/2, so the tiny result (< 1.5e-8) carries a relative error of up to 2.5e4 ulp
     if ((fn == FN_SIN || fn == FN_COS || fn == FN_TAN) && dbl && std::fabs((double)x) < 64.0)
